@@ -34,6 +34,12 @@ def judge(rec, opts):
         layers = [replay.layer(x) for x in rec["data"]]
         templates = {replay.conc(n): replay.conc(t) for n, t in rec["templates"]}
         env = replay.make_env(rec["cfg"], loader=CachingDictLoader(templates), env_globals=layers[3])
+        # an earlier caller loaded the same template with other template globals: nothing of that may stay
+        names = {k for l in layers for k in l} | {"x", "now", "today"}
+        try:
+            env.get_template(replay.conc(rec["main"]), globals={n: "STALE" for n in names}).render()
+        except Exception:  # noqa: BLE001
+            pass
         for attempt in ("first-load", "cache-hit"):
             g2 = replay.outcome(lambda: env.get_template(replay.conc(rec["main"]), globals=layers[2] or None).render(**layers[0]))
             f2 = replay.compare(rec, g2)
